@@ -80,7 +80,7 @@ func GenOptions(g G, p *Project) *OptModel {
 	o.AssetNames = g.n(len(assetNameT))
 	o.PublicPath = g.n(len(publicPathT))
 	o.Outdir = g.n(len(outdirT))
-	o.Outbase = g.n(3)
+	o.Outbase = g.n(4)
 	o.OutExt = g.n(3)
 	o.BinLoader = g.n(5)
 	o.TxtLoader = g.n(3)
@@ -151,6 +151,8 @@ func (o *OptModel) Build(p *Project) api.BuildOptions {
 		b.Outbase = "src"
 	case 2:
 		b.Outbase = "."
+	case 3:
+		b.Outbase = "src/lib" // deeper than most entry points: their directory relative to it is ".."
 	}
 	switch o.OutExt {
 	case 1:
